@@ -27,7 +27,7 @@ Section Ext.
   Let Ec := proj2 (proj2 (proj2 (proj2 E))).
 
   Lemma w_times_ext a : w_times t v a = w_times t v' a.
-  Proof. unfold w_times. destruct t; [rewrite !Ea|]; reflexivity. Qed.
+  Proof. unfold w_times, w_time1. destruct t; [rewrite !Ea|]; reflexivity. Qed.
   Lemma w_header_ext k a : w_header t v k a = w_header t v' k a.
   Proof. unfold w_header. rewrite !Ea, w_times_ext. reflexivity. Qed.
   Lemma w_linklist_ext a r : w_linklist v a r = w_linklist v' a r.
